@@ -171,7 +171,8 @@ class Obligation:
 
 class LoopSpec:
     def __init__(self, inv, reveal=(), reveal_init=(), reveal_post=(), reveal_exit=(), ghost_vars=(), havoc_extra=(),
-                 ghost_before=(), ghost_end=(), reveal_break=()):
+                 ghost_before=(), ghost_end=(), reveal_break=(), ghost_begin=()):
+        self.ghost_begin = ghost_begin
         self.inv, self.reveal, self.reveal_init, self.reveal_post, self.reveal_exit = inv, reveal, reveal_init, reveal_post, reveal_exit
         self.ghost_vars, self.havoc_extra, self.ghost_before, self.ghost_end = ghost_vars, havoc_extra, ghost_before, ghost_end
         self.reveal_break = reveal_break
@@ -971,6 +972,9 @@ class VC:
                 if step != 1: raise OutsideSubset('reversed range step')
                 cnt = If(hi >= lo, hi - lo, 0)
                 return 0, cnt, (lambda Q, i: self.assign(tgt, hi - 1 - i, Q))
+            if f == 'reversed' and len(it.args) == 1:
+                seq = P.deref(self.ev(it.args[0], P)); n = self.seq_len(seq)       # reversed(list): element n-1-i at ghost index i
+                return 0, n, (lambda Q, i: self.assign(tgt, self.seq_get(seq, n - 1 - i, Q), Q))
             if f == 'zip':
                 seqs = [P.deref(self.ev(x, P)) for x in it.args]
                 n = self.seq_len(seqs[0])
@@ -1044,6 +1048,7 @@ class VC:
         else:
             c = self.truth(self.ev(st.test, Bp), Bp)
             Bp.pc.append(zbool(c))
+        self.run_ghost(spec.ghost_begin, Bp)
         pre = EnvView(Bp.fork())
         for r in spec.reveal: Bp.pc.append(zbool(r(self.A, EnvView(Bp))))
         self.loop_stack.append(ordinal)
